@@ -3355,9 +3355,20 @@ class ContractionTree:
         if isinstance(next(iter(chunks.values())), tuple):
             # have stripped exponents, need to scale to largest
             emax = max(v[1] for v in chunks.values())
+            # chunks that are exactly zero (check_zero=True) are scalars
+            zero_keys = [
+                k
+                for k, (mi, ei) in chunks.items()
+                if (ei == float("-inf")) and (getattr(mi, "ndim", 0) == 0)
+            ]
             chunks = {
                 k: mi * 10 ** (ei - emax) for k, (mi, ei) in chunks.items()
             }
+            if zero_keys and (len(zero_keys) < len(chunks)):
+                # give them the shape of the others so they can be stacked
+                ref = next(x for k, x in chunks.items() if k not in zero_keys)
+                for k in zero_keys:
+                    chunks[k] = do("zeros_like", ref, like=backend)
         else:
             emax = None
 
